@@ -21,8 +21,10 @@ const helperDecls = `
 func verif_implies(a, b bool) bool { return !a || b }
 func verif_iff(a, b bool) bool { return a == b }
 func verif_old[T any](x T) T { return x }
+func verif_prev[T any](x T) T { return x }
 func verif_forall(f any) bool
 func verif_exists(f any) bool
+func verif_fresh(p any) bool
 `
 
 type clauseInfo struct {
